@@ -14,8 +14,8 @@ pub static DEF: PropDef = PropDef {
     level: "fault_enumeration",
     rule: "each case: one valid document (real writer or hostile reference encoder; known, unknown and mixed sizes; ids and size fields of 1-8 bytes) and EVERY cut position 0..=len (for documents up to 400 bytes; 64 random cuts plus all header-internal cuts of 40 random elements for larger ones) x capacity {16, 64, default} x read schedule {whole, 1 byte, random} x poison pattern (one random combination per cut). Expected behaviour is computed arithmetically from the layout of the whole document, not by parsing the prefix: items = all elements whose header (masters) or whole extent (other elements) lies inside the prefix, with Ends of masters that close inside the prefix; then, if the cut is on a tag boundary, the Ends of all open masters innermost first and None; otherwise UnexpectedEOF with tag_start = offset of the incomplete tag, tag_id present iff the id bytes are complete (and equal), tag_size present iff the header is complete (and equal), partial_data = exactly the available payload bytes (None or empty when none), and never a CorruptedFileData error. distinct = (cut class: boundary / inside id / inside size / inside payload) x (element kind, id length, size length) x capacity; non-trivial = not a boundary cut, or a boundary cut with >= 2 masters open.",
     assumptions: &["layout (refcodec::layout_guided / enc_tree) of the valid document is correct", "a cut after a complete header of an empty element (size 0) counts as a boundary: the element is complete", "for unknown-size masters the implicit close is only known when the following element's header is complete; a cut inside the header of an element that would close unknown-size masters expects the EOF error without those Ends (the Ends of still-open masters are not emitted after an error)"],
-    cases_quick: 1500,
-    cases_thorough: 60_000,
+    cases_quick: 30_000,
+    cases_thorough: 400_000,
     floors: &[("cuts_checked", 60_000), ("cut_inside-id", 2000), ("cut_inside-size", 2000), ("cut_inside-payload", 5000), ("cut_boundary", 5000), ("distinct_nontrivial", 150)],
     exhaustive_note: Some("every cut position 0..=len of each generated document of <= 400 bytes"),
     run,
